@@ -5,6 +5,7 @@ import ConjureVerif.Model.Rid
 import ConjureVerif.Model.Plain
 import ConjureVerif.Model.Negotiate
 import ConjureVerif.Model.Body
+import ConjureVerif.Model.LogSafety
 /-
 Line-protocol driver.  One operation per input line: `<property> <op> <args…>`; one output line per
 operation.  Imports models only (no Mathlib, no proofs), so it links as a native executable.
@@ -17,6 +18,7 @@ def dispatch (line : String) : String :=
   | "C07" :: rest => Uri.handle rest
   | "C06" :: rest => Body.handle rest
   | "C18" :: rest => Body.handle rest
+  | "C08" :: rest => LogSafety.handle rest
   | "C11" :: rest => Negotiate.handle rest
   | "C12" :: rest => Plain.handle rest
   | "C16" :: "token" :: rest => Token.handle ("token" :: rest)
